@@ -747,11 +747,15 @@ def runCall (fl : Flags) (b : Block) (conv : Bool := false) : Res :=
   let c17 := if fam = "redefcall" then
       (match runs.find? (fun r => (resOf r).head? == some "err") , outs.find? (fun o => match o.1.outcome with | .ok _ => true | _ => false) with
        | some r, some _ => s!"FAIL:redefined_function_reports_{noSpace (showImplRes (resOf r))}_although_the_call_succeeds"
-       | _, _ => "ok")
+       | _, _ =>
+         -- … and hands back the k results of the original (same length, same values)
+         match runs.find? (fun r => isPanicRes (resOf r)), outs.find? (fun o => match o.1.outcome with | .ok _ => true | _ => false) with
+         | some r, some _ => s!"FAIL:redefined_function_{noSpace (showImplRes (resOf r))}_although_the_call_succeeds"
+         | _, _ => "ok")
     else "na"
   -- C16 on the redefined function: the values it is called with come after the options given to Redefine, so for a
   -- key given at both times the later one is injected (the replay applies the options in that order)
-  let c16 := if fam = "redefcall" then
+  let c16 := if fam = "redefcall" ∧ !runs.any (fun r => isPanicRes (resOf r)) then
       (match conform with
        | some m => s!"FAIL:inner_call_of_the_redefined_function_differs_from_options_then_values_in_order:{noSpace m}"
        | none => "ok")
